@@ -304,7 +304,7 @@ Definition bytes_encode (p dst : list Z) : bool * list Z := (true, dst ++ p).
                  fewer than n payload bytes buffered: Ok(None), nothing consumed.
         decode_eof : decode; on None with bytes left: Err(Truncated) and the buffer is cleared.
         encode : payload longer than 254 bytes: Err(TooLong), dst untouched. ---- *)
-Inductive lpitem := LOk (p : list Z) | LBadHdr | LTrunc | LRemaining.
+Inductive lpitem := LOk (p : list Z) | LBadHdr | LTrunc | LRemaining | LEnd.
 
 Definition lp_decode (src : list Z) : option lpitem * list Z :=
   match src with
@@ -324,6 +324,15 @@ Definition lp_decode_eof (src : list Z) : option lpitem * list Z :=
 (* the same codec with the PROVIDED decode_eof (`LpDefaultEof` in the harness): a truncated
    final frame is an error that does not consume anything *)
 Definition lpd_decode_eof : list Z -> option lpitem * list Z := default_eof lp_decode LRemaining.
+
+(* the same codec with a trailer (`LpCodec{trailer: true}` in the harness): at the end of the stream, once nothing
+   is left to decode, it yields an end marker — derived from nothing but the fact that the stream has ended, so on
+   an EMPTY buffer — and again every time it is asked: such a stream never yields None *)
+Definition lps_decode_eof (src : list Z) : option lpitem * list Z :=
+  match lp_decode src with
+  | (Some a, r) => (Some a, r)
+  | (None, r) => match r with [] => (Some LEnd, []) | _ => (Some LTrunc, []) end
+  end.
 
 Definition lp_encode (p dst : list Z) : bool * list Z :=
   if (254 <? length p)%nat then (false, dst)
